@@ -586,6 +586,16 @@ def special_SpawnObjectPacket(ctx, P, cx, strlen, lite=False):
     return _roundtrip(ctx, P, cx, pkt, compare, 'SpawnObjectPacket')
 
 
+def _opt_str(ctx, name, lite):
+    """an optional string: None, the EMPTY string, or one character"""
+    k = concretize(ctx.int(name + '.kind', 0, 2))
+    if k == 0:
+        return None
+    if k == 1:
+        return ''
+    return sstr.ctx_str(ctx, name, 1, ascii_only=lite)
+
+
 def special_PlayerListItemPacket(ctx, P, cx, strlen, lite=False):
     kind = concretize(ctx.int('action', 0, 4))
     A = P.Action.type_from_id(kind)
@@ -604,8 +614,7 @@ def special_PlayerListItemPacket(ctx, P, cx, strlen, lite=False):
                                       ascii_only=lite),
                     value=sstr.ctx_str(ctx, 'pv%d_%d' % (i, j), 1,
                                        ascii_only=lite),
-                    signature=sstr.ctx_str(ctx, 'ps%d_%d' % (i, j), 1,
-                                           ascii_only=lite)
+                    signature=_opt_str(ctx, 'ps%d_%d' % (i, j), lite)
                     if signed else None))
             f['properties'] = props
         if kind in (0, 1):
@@ -613,9 +622,7 @@ def special_PlayerListItemPacket(ctx, P, cx, strlen, lite=False):
         if kind in (0, 2):
             f['ping'] = ctx.int('ping%d' % i, 0, 127 if lite else (1 << 32) - 1)
         if kind in (0, 3):
-            f['display_name'] = sstr.ctx_str(ctx, 'dn%d' % i, strlen,
-                                             ascii_only=lite) \
-                if bool(ctx.bool('has_dn%d' % i)) else None
+            f['display_name'] = _opt_str(ctx, 'dn%d' % i, lite)
         acts.append(A(**f))
         specs.append(f)
     pkt = P(cx, action_type=A, actions=acts)
@@ -667,8 +674,8 @@ def special_MapPacket(ctx, P, cx, strlen, lite=False):
         x = ctx.int('icon%d.x' % i, -128, 127)
         z_ = ctx.int('icon%d.z' % i, -128, 127)
         nm = None
-        if named and bool(ctx.bool('icon%d.has_name' % i)):
-            nm = sstr.ctx_str(ctx, 'icon%d.name' % i, strlen)
+        if named:
+            nm = _opt_str(ctx, 'icon%d.name' % i, lite)
         icons.append(P.MapIcon(ty, di, (x, z_), nm))
     width = [0, 2][concretize(ctx.int('width_sel', 0, 1))]
     if width:
